@@ -284,6 +284,38 @@ def _calls():
         plt.close(fig)
     add("plot functions", f_plot)
 
+    def f_more_writers(a, b, W):
+        """the less travelled writers: ROS1 bag export (quaternions that are
+        unit only to about 1e-7, as parsed from a text file) and the table
+        writer in both orientations"""
+        from evo.core.trajectory import PoseTrajectory3D
+        from evo.tools.settings import SETTINGS
+        if hasattr(a, "timestamps"):
+            from rosbags.rosbag1 import Writer
+            q = np.array(a.orientations_quat_wxyz) * (1.0 + 3e-7)
+            t = PoseTrajectory3D(np.array(a.positions_xyz), q,
+                                 np.array(a.timestamps),
+                                 meta={"frame_id": "map"})
+            W(t, "trajectory written to the bag")
+            if os.path.exists("w.bag"):
+                os.remove("w.bag")
+            wr = Writer("w.bag")
+            wr.open()
+            try:
+                file_interface.write_bag_trajectory(wr, t, "/traj", "map")
+            finally:
+                wr.close()
+        df = pandas_bridge.trajectories_stats_to_df(
+            {"orb": a, "ground_truth": b, "kimera": a}) \
+            if hasattr(pandas_bridge, "trajectories_stats_to_df") else \
+            pandas_bridge.trajectory_stats_to_df(a)
+        W(df, "DataFrame handed to save_df_as_table")
+        for transpose in (True, False):
+            pandas_bridge.save_df_as_table(df, "w_table.csv",
+                                           SETTINGS.table_export_format,
+                                           transpose)
+    add("bag writer / table writer", f_more_writers)
+
     def f_copying(a, b, W):
         """copy / deepcopy / pickle are computations on their argument too.
         Observed WITHOUT deep copies (the harness' usual snapshot is a deep
@@ -516,7 +548,7 @@ class Heap(object):
         for o in st.objs:
             flags = (type(o).__name__, hasattr(o, "_positions_xyz"),
                      hasattr(o, "_orientations_quat_wxyz"),
-                     hasattr(o, "_poses_se3"), bool(o._projected),
+                     hasattr(o, "_poses_se3"), bool(getattr(o, "_projected", False)),
                      type(getattr(o, "_poses_se3", None)).__name__)
             c = copy.deepcopy(o)
             parts.append(repr(flags).encode())
